@@ -1,4 +1,5 @@
 import NunVerif.Model.Session
+import NunVerif.Model.Oplog
 /-
   Line-protocol driver: one operation per input line, canonical output lines per operation.
   The Rust harness (`nvh`) produces the same lines from the real implementation.
@@ -129,6 +130,7 @@ structure World where
   /-- conflict notices received per session (for `RESOLVE`) -/
   notices : List (Sid × List Bytes) := []
   lastDump : List String := []
+  oplog : OplogFs := {}
 
 def recordNotices (w : World) (evs : List Ev) : World :=
   evs.foldl (fun w e => match e with
@@ -148,7 +150,7 @@ def step (w : World) (line : String) : World × List String :=
   | "RESET" =>
     let role := if a1 = b!"startingup" then Role.startingUp else if a1 = b!"secoundary" then Role.secoundary else Role.primary
     let n := freshNode role
-    ({ node := n }, ["# reset"] ++ dumpNode n)
+    ({ node := n, oplog := {} }, ["# reset"] ++ dumpNode n)
   | "SESS" =>
     match Bytes.parseNat a1 with
     | some sid =>
@@ -208,6 +210,32 @@ def step (w : World) (line : String) : World × List String :=
   | "DELMETA" =>
     let n := { w.node with fs := AL.erase w.node.fs (metaFile a1) }
     ({ w with node := n }, dumpFs n.fs ++ dumpNode n)
+  | "OPLOG" =>
+    let parseRecs (b : Bytes) : OpFile :=
+      (Bytes.splitAll 59 b).filter (· != []) |>.map fun r =>
+        let f := (Bytes.splitAll 44 r).map fun x => (Bytes.parseNat x).getD 0
+        { t := f[0]?.getD 0, k := f[1]?.getD 0, d := f[2]?.getD 0, o := f[3]?.getD 0 }
+    let recStr (f : OpFile) : String := ";".intercalate (f.map fun r => s!"{r.t},{r.k},{r.d},{r.o}")
+    let listing (o : OplogFs) : List String :=
+      s!"O cur {recStr o.cur}" :: (o.rot.zipIdx.map fun (f, i) => s!"O rot{i} {recStr f}")
+    let sub := String.ofList (a1.map Char.ofNat)
+    match sub with
+    | "set" => let o := { w.oplog with cur := parseRecs a2 }; ({ w with oplog := o }, listing o)
+    | "rot" => let o := { w.oplog with rot := parseRecs a2 :: w.oplog.rot }; ({ w with oplog := o }, listing o)
+    | "query" =>
+      let since := (Bytes.parseNat a2).getD 0
+      let res := readAll w.oplog.cur w.oplog.rot since
+      let lines := res.map fun ((d, k), (o, t, _)) => (toBytes s!"{d}_{k}", s!"Q {d}_{k} opp={o} ts={t}")
+      (w, (sortBy (·.1) lines).map (·.2) ++ listing w.oplog)
+    | "last" => (w, s!"T {lastOpTime w.oplog.cur w.oplog.rot}" :: listing w.oplog)
+    | "append" =>
+      let recs := parseRecs a2
+      let (o, outs, _) := recs.foldl (fun (st : OplogFs × List String × Bool) r =>
+        let (o, outs, first) := st
+        (o.append 250 r first, outs ++ [s!"A ok {r.t}"], false)) (w.oplog, [], true)
+      ({ w with oplog := o }, outs ++ listing o)
+    | "declutter" => let o := w.oplog.declutter; ({ w with oplog := o }, listing o)
+    | _ => (w, ["E bad-op"])
   | "REG" =>
     match Bytes.parseNat a1 with
     | some op =>
